@@ -13,7 +13,9 @@ Runtime contracts, evaluated on the real parser through the public API
 
 Precondition (cases excluded, not failures): t does not begin or end with a Unicode whitespace
 character -- the ATX heading rule strips leading/trailing blanks before inline parsing, so such
-a t is the same inline text as its stripped form, which is enumerated anyway.
+a t is the same inline text as its stripped form, which is enumerated anyway; and t does not end
+with an ATX closing sequence (a run of # preceded by a blank, or t is only #s), which the heading
+rule removes as well.
 
 Input families (all deterministic for a given (tier, seed); see run() for the bounds):
 
@@ -60,6 +62,7 @@ and taking the smallest set of deviations that reproduces the implementation's o
 import itertools
 import json
 import random
+import re
 import traceback
 import unicodedata
 
@@ -183,14 +186,17 @@ def _spec_html(t, **kw):
     return out.replace(STANDIN, {'<': '&lt;', '&': '&amp;'}.get(c, c))
 
 
-def classify(t, observed):
-    """Smallest set of named deviations of the reference model that reproduces `observed`."""
-    # Explanations that avoid the deviations listed in DISFAVOURED (fixed in the tree by now) are
-    # preferred: a set using one of them is only reported when no set without them reproduces
-    # the output.  Within each group the smallest set (then declaration order) wins.
+_SPEC_WS, _SPEC_P = SE.is_unicode_whitespace, SE.is_punctuation      # the specification's classes
+
+
+def _combos():
     n = len(DEVIATIONS)
     combos = [c for size in range(1, n + 1) for c in itertools.combinations(range(n), size)]
     combos.sort(key=lambda c: (any(DEVIATIONS[i][0] in DISFAVOURED for i in c), len(c), c))
+    return combos
+
+
+def _explained_by(t, observed, combos):
     for combo in combos:
         kw = {'push_inert': True}
         for i in combo:
@@ -200,17 +206,27 @@ def classify(t, observed):
                 return '+'.join(DEVIATIONS[i][0] for i in combo)
         except Exception:  # noqa
             pass
-    return classify_flanking(t, observed)
+    return None
+
+
+def classify(t, observed):
+    """Smallest set of named deviations of the reference model that reproduces `observed`."""
+    # Explanations that avoid the deviations listed in DISFAVOURED (fixed in the tree by now) are
+    # preferred: a set using one of them is only reported when no set without them reproduces
+    # the output.  Within each group the smallest set (then declaration order) wins.
+    return _explained_by(t, observed, _combos()) or classify_flanking(t, observed)
 
 
 def _char_class(c):
     """Class of a character by the specification (section 2.1), refined for reporting."""
     if c in '*_':
         return 'delimiter'
-    if SE.is_unicode_whitespace(c):
+    if c == '\n':
+        return 'line-ending'
+    if _SPEC_WS(c):
         return 'ascii-whitespace' if c.isascii() else 'unicode-whitespace'
     plane = 'ascii' if c.isascii() else ('bmp' if ord(c) < 0x10000 else 'astral')
-    if SE.is_punctuation(c):
+    if _SPEC_P(c):
         return plane + '-punctuation'
     cat = unicodedata.category(c)
     if cat[0] == 'S':
@@ -220,36 +236,59 @@ def _char_class(c):
 
 def classify_flanking(t, observed):
     """Second attribution stage: is the observed output what the SPECIFICATION algorithm gives when
-    the characters of one class next to a delimiter run are put into another flanking class?
-    -> 'flanking-<class>-treated-as-<ws|punct|other>' or 'unexplained'."""
+    the characters of one class next to a delimiter run are put into another flanking class
+    (alone, or together with at most two of the named deviations)?
+    -> 'flanking-<class>-treated-as-<whitespace|punctuation|other>[+deviations]' or 'unexplained'."""
     neigh = set()
     for i, c in enumerate(t):
         if c in '*_':
             for j in (i - 1, i + 1):
                 if 0 <= j < len(t) and t[j] not in '*_':
                     neigh.add(_char_class(t[j]))
-    spec_ws, spec_p = SE.is_unicode_whitespace, SE.is_punctuation
+    small = [c for c in _combos() if len(c) <= 2 and not any(DEVIATIONS[i][0] in DISFAVOURED for i in c)]
+    # non-ASCII classes first: a misclassified ASCII class shows up in the exhaustive ASCII
+    # enumerations (where it is the only candidate), so next to a non-ASCII character the
+    # non-ASCII class is the more plausible culprit
+    rank = lambda cls: (0 if cls.startswith('astral') else 2 if cls.startswith('ascii') else 1,  # noqa
+                        0 if cls.endswith(('punctuation', 'whitespace', 'symbol')) else 1, cls)
     try:
-        for cls in sorted(neigh):
-            for name, as_ws, as_p in (('whitespace', True, False), ('punctuation', False, True),
-                                      ('other', False, False)):
-                SE.is_unicode_whitespace = (lambda c, cls=cls, v=as_ws:
-                                            v if (c not in '*_' and _char_class(c) == cls) else spec_ws(c))
-                SE.is_punctuation = (lambda c, cls=cls, v=as_p:
-                                     v if (c not in '*_' and _char_class(c) == cls) else spec_p(c))
-                try:
-                    if _spec_html(t) == observed:
-                        return 'flanking-%s-treated-as-%s' % (cls, name)
-                except Exception:  # noqa
-                    pass
+        for combos in ([()], small):
+            for cls in sorted(neigh, key=rank):
+                for name, as_ws, as_p in (('punctuation', False, True), ('other', False, False),
+                                          ('whitespace', True, False)):
+                    if (as_ws, as_p) == (cls.endswith('whitespace') or cls == 'line-ending', cls.endswith('punctuation')):
+                        continue                             # that IS the specification
+                    SE.is_unicode_whitespace = (lambda c, cls=cls, v=as_ws:
+                                                v if _char_class(c) == cls else _SPEC_WS(c))
+                    SE.is_punctuation = (lambda c, cls=cls, v=as_p:
+                                         v if _char_class(c) == cls else _SPEC_P(c))
+                    slug = 'flanking-%s-treated-as-%s' % (cls, name)
+                    if combos == [()]:
+                        try:
+                            if _spec_html(t) == observed:
+                                return slug
+                        except Exception:  # noqa
+                            pass
+                    else:
+                        dev = _explained_by(t, observed, combos)
+                        if dev:
+                            return slug + '+' + dev
     finally:
-        SE.is_unicode_whitespace, SE.is_punctuation = spec_ws, spec_p
+        SE.is_unicode_whitespace, SE.is_punctuation = _SPEC_WS, _SPEC_P
     return 'unexplained'
 
 
 def _has_ws_edge(t):
     return bool(t) and (t[0].isspace() or t[-1].isspace()
                         or SE.is_unicode_whitespace(t[0]) or SE.is_unicode_whitespace(t[-1]))
+
+
+# an ATX heading's optional closing sequence (spec 4.2): a run of # at the end that is preceded by a
+# blank or is the whole content -- it is not part of the inline text.  The specification says
+# "preceded by spaces or tabs"; the tree under test also accepts other Unicode whitespace there
+# ('# a\u202f#' -> <h1>a</h1>), which is a deviation of the HEADING rule and not of the emphasis
+# algorithm this property is about, so any whitespace (re \s) excludes the case here.
+_ATX_CLOSING = re.compile(r'(?:^|\s)#+$')
 
 
 def _in_enumerated(t):
@@ -282,7 +321,7 @@ def check_many(texts, selfcheck, family='enum5', mode='h', dedupe=False, rule3_p
     sfx = '' if mode == 'h' else '-par'
     for t in texts:
         if mode == 'h':
-            if _has_ws_edge(t):
+            if _has_ws_edge(t) or _ATX_CLOSING.search(t):
                 res['skipped_precondition'] += 1
                 continue
             if dedupe and _in_enumerated(t):
@@ -436,7 +475,7 @@ def partial_runs():
 
 
 # the examples named in the property / review; asserted to be in the quick domain by run()
-NAMED_PARTIAL = ['*a***a*', '**a*.*.', '**a****b*', '**_*_*', '*_**.*', '***a**a*', '*a**a***',
+NAMED_PARTIAL = ['*a***a*', '**a*.*.', '**a****a*', '**_*_*', '*_**.*', '***a**a*', '*a**a***',
                  '.__.___.__.', '.___.__._.']
 
 
@@ -549,7 +588,7 @@ def run(tier, seed, workers):
     validate_char_classes()
     for t in NAMED_PARTIAL[:7]:
         # hole (2) of the review: these must be members of the exhaustive quick enumerations
-        assert _in_enumerated(t) or len(t) > n5, t
+        assert _in_enumerated(t), t
     H = {'mode': 'h'}
     tasks = []           # (task, selfcheck, opts)
     for t in alpha_tasks(SIGMA5, n5, 4):
@@ -664,7 +703,7 @@ def run(tier, seed, workers):
         'nothing, a or . (%d of these change when the rule of three uses the remaining lengths); '
         "every string t observed through HtmlRenderer().render(Document('# ' + t)); "
         '+ multiline-par: ALPHA({a,SP,*,_,.,LF}, %d) with at least one LF observed through '
-        'Document(t) as one paragraph; strings beginning or ending with whitespace (heading), resp. '
+        'Document(t) as one paragraph; strings beginning or ending with whitespace or ending with an ATX closing sequence (heading), resp. '
         'with an empty line, a line with leading/trailing blanks, a thematic break or a bullet item '
         '(paragraph) are excluded by precondition (%d excluded, not counted in evaluations); %d directed '
         'strings with more than one of ` [ ] \\ < & ! or one that is not certainly literal are outside '
